@@ -966,17 +966,19 @@ func (tr *Tr) opaqueAtom(sd *SpecDef, v Value) Value {
 		for i, p := range params {
 			generic = strings.ReplaceAll(generic, p, fmt.Sprintf("|par#%d|", i))
 		}
-		rk := "reveal|" + generic
+		// the defining equation only matters where this application (these heap versions) can occur: emitted once per
+		// top-level block and sliced away for obligations that block cannot reach
+		rk := fmt.Sprintf("reveal|%d|%s", tr.sc.curBlock, generic)
 		if !tr.typeFactDone[rk] {
 			tr.typeFactDone[rk] = true
 			if len(params) == 0 {
-				tr.sc.fact(sEq(atom, f))
+				tr.sc.factLocal(sEq(atom, f))
 			} else {
 				var bs []string
 				for _, p := range params {
 					bs = append(bs, "("+p+" Int)")
 				}
-				tr.sc.fact(fmt.Sprintf("(forall (%s) (! (= %s %s) :pattern (%s)))", strings.Join(bs, " "), atom, f, atom))
+				tr.sc.factLocal(fmt.Sprintf("(forall (%s) (! (= %s %s) :pattern (%s)))", strings.Join(bs, " "), atom, f, atom))
 			}
 		}
 	}
